@@ -42,7 +42,7 @@ def table_arrays(tbl):
         "time": np.array(tbl["times"], dtype="int64").astype("datetime64[s]").astype("datetime64[ns]")
         if tbl.get("times") is not None and not tbl.get("no_time")
         else None,
-        "cols": OrderedDict((k, col(v)) for k, v in tbl["cols"].items()),
+        "cols": OrderedDict((k, col(v).astype((tbl.get("dtypes") or {}).get(k, "float64"))) for k, v in tbl["cols"].items()),
     }
     for ax in ("z", "lat", "lon"):
         out[ax] = col(tbl[ax]) if tbl.get(ax) is not None else None
@@ -379,6 +379,9 @@ def make_stream(frontend, tbl):
         return PandasStream(make_df(tbl), **kw), None
     if frontend == "numpy":
         inp = OrderedDict((k, v.copy()) for k, v in a["cols"].items())
+        if tbl.get("readonly"):
+            for v in inp.values():
+                v.setflags(write=False)  # a caller may well hand over arrays it does not want written
         if tbl.get("numpy_single") and len(inp) == 1:
             inp = next(iter(inp.values()))
         return (
